@@ -233,6 +233,14 @@ def run_history(case):
                     args[f] = val[0] if (form in ("s1", "k") and stp.get("strform")) else list(val)
                     argv += [{"announce": "--tracker", "url-list": "--web-seed", "httpseeds": "--http-seed"}[f]] + list(val)
             status = "ok"
+            twin_path, pre_raw = None, None
+            if stp.get("twin") and entry == "cli":      # the same invocation names an identical second metafile
+                twin_path = os.path.join(os.path.dirname(abs_out), "twin-of-" + os.path.basename(abs_out))
+                with open(abs_out, "rb") as fh:
+                    pre_raw = fh.read()
+                with open(twin_path, "wb") as fh:
+                    fh.write(pre_raw)
+                argv = argv[:2] + [twin_path if not case.get("rel_paths") else os.path.relpath(twin_path)] + argv[2:]
             try:
                 if entry == "cli":
                     execute(argv)
@@ -248,8 +256,15 @@ def run_history(case):
                     meta = observe(fh.read())
             else:
                 status = status if status != "ok" else "nofile"
-            recs.append(dict(base, id=rid + n, op="edit", status=status, entry=entry, req=req, want=want,
-                             clauses=case["edit_clauses"], meta=meta))
+            rec = dict(base, id=rid + n, op="edit", status=status, entry=entry, req=req, want=want,
+                       clauses=case["edit_clauses"], meta=meta)
+            if twin_path is not None:
+                raw1 = open(abs_out, "rb").read() if os.path.isfile(abs_out) else b""
+                raw2 = open(twin_path, "rb").read() if os.path.isfile(twin_path) else b""
+                rec["twin"] = {"same_as_first": raw1 == raw2, "unchanged": raw2 == pre_raw, "first_unchanged": raw1 == pre_raw}
+                rec["clauses"] = ["C07.twin"] if "C07.status" in case["edit_clauses"] else []
+                os.remove(twin_path)
+            recs.append(rec)
         return recs
     finally:
         os.chdir(cwd0)
